@@ -13,6 +13,9 @@ offset 0). Different transactions may sit anywhere (every commit schedule / IO c
 import ImmuModel.Store.Truncate
 import ImmuModel.Store.Proofs.TruncateProofs
 import ImmuModel.Store.Proofs.TruncateMono
+import ImmuModel.Store.TruncateWalk
+import ImmuModel.Gen.C14
+import ImmuModel.Store.Proofs.TruncateWalkProofs
 
 namespace ImmuModel.Props.C14
 open ImmuModel.Store.Truncate ImmuModel.Store.TruncateAux
@@ -57,6 +60,77 @@ example :
     let s : Store := { F := 64, maxIO := 1, txs := [appendValues 1 0 [60, 0, 10], appendValues 1 70 [100]],
                        vlogs := fun _ => { cur := 2, offset := 170, present := [0, 1, 2] } }
     ((truncateUpto s 2).store.vlogs 1).present = [1, 2] ∧ (truncateUpto s 2).store.readable ⟨1, 70, 100⟩ := by
+  decide
+
+/-- **The walks the model transcribes are the walks of the code** (facts regenerated from `embedded/store/immustore.go`
+`TruncateUptoTx` at every run by extract/c14.go): the backward walk `backWalk`, the forward walk `frontWalk` from `minTxID`
+up to a variable that is DEFINED as `s.LastCommittedTxID()` and written nowhere else in the function (no cap, no window:
+`tombstones` passes `last + 1 - n` steps), and no third `for` loop.  If the code's walks change shape this stops
+elaborating and the property is reported as no longer shown. -/
+theorem walks_as_in_code :
+    ImmuModel.Gen.C14.truncBackLoop =
+      "var i uint64 = minTxID; for i > 0 && len(tombstones) != s.MaxIOConcurrency() { …; i-- }" ∧
+    ImmuModel.Gen.C14.truncFrontLoop = "j := minTxID; j <= maxTxID; j++" ∧
+    ImmuModel.Gen.C14.truncFrontBound = "maxTxID" ∧
+    ImmuModel.Gen.C14.truncFrontBoundDef = "s.LastCommittedTxID()" ∧
+    ImmuModel.Gen.C14.truncFrontBoundWrites = 1 ∧
+    ImmuModel.Gen.C14.truncForLoops = 2 :=
+  ⟨rfl, rfl, rfl, rfl, rfl, rfl⟩
+
+/-- **The forward walk of the code ends at the LAST committed tx** (`maxTxID := s.LastCommittedTxID()`;
+`for j := minTxID; j <= maxTxID; j++`): the model's `truncateUpto` is the walk-to-`hi` truncation with `hi = last`, by
+definition.  (The harness compares the tombstones the real store logs with `tombstones` on histories whose value-log
+order and id order differ by more than MaxConcurrency: a walk that stops earlier is a correspondence mismatch.) -/
+theorem front_walk_ends_at_last (s : Store) (n : Nat) :
+    tombstones s n = tombstonesUpTo s n s.last ∧ truncateUpto s n = truncateUptoWalkingTo s n s.last :=
+  ⟨rfl, rfl⟩
+
+/-- **… hence it covers EVERY later transaction**: whatever tombstones `TruncateUptoTx(n)` computes, the tombstone of a
+value log is at or below the first value of every committed tx `n ≤ id ≤ last` that uses that log — however far `id`
+is from `n` (no bound by MaxConcurrency or anything else), for every placement. This is what `truncate_safe` rests on. -/
+theorem front_walk_covers_every_later_tx (s : Store) (n : Nat) (t : Tomb) (h : tombstones s n = .ok t)
+    (id : Nat) (f : Ent) (hn : n ≤ id) (hid : id ≤ s.last) (hf : s.firstEntry id = .ok f) :
+    ∀ p ∈ t, p.1 = f.vlog → p.2 ≤ f.off := by
+  unfold tombstones at h
+  split at h
+  · cases h
+  · obtain ⟨_, hb⟩ := frontWalk_spec s _ _ _ _ h
+    exact hb id f hn (by omega) hf
+
+/-- **A forward walk cut short at `n + c` is unsafe, for EVERY constant `c`** (MaxConcurrency, MaxActiveTransactions, …
+— "values can only overlap within the max concurrency range" is false: `c` bounds the committers in flight at one
+instant, not by how many ids a committer that has already written its values can be overtaken).  Witness, for each `c`:
+chunk size 64, one value log; a committer writes 64 bytes at offset 0 and stalls; tx 1 (64 bytes at 64) and `c` more txs
+(8 bytes each, from 128) commit; the stalled one commits as tx `c + 2`.  Everything is committed and readable.
+`TruncateUptoTx(1)` with the walk stopping at `1 + c` answers ok and deletes chunk 0 — the value of tx `c + 2 ≥ 1` is
+gone — while the walk of the code (`truncateUpto`) keeps it. -/
+theorem short_front_walk_unsafe (c : Nat) :
+    ∃ (s : Store) (n id : Nat) (tx : TxEnts) (e : Ent),
+      (∀ tx' ∈ s.txs, Placed tx') ∧ 1 ≤ n ∧ n + c < id ∧ id ≤ s.last ∧ s.txs[id - 1]? = some tx ∧ e ∈ tx ∧
+      s.readable e ∧
+      (truncateUptoWalkingTo s n (n + c)).out = .ok ∧
+      ¬ (truncateUptoWalkingTo s n (n + c)).store.readable e ∧
+      (truncateUpto s n).store.readable e := by
+  open ImmuModel.Store.TruncateWalkAux in
+  have hpl : ∀ tx' ∈ (lateCommitterStore c).txs, Placed tx' := late_placed c
+  have hlast := late_last c
+  have htx : (lateCommitterStore c).txs[c + 2 - 1]? = some [⟨1, 0, 64⟩] := by
+    have : c + 2 - 1 = c + 1 := by omega
+    rw [this]; exact late_txLate c
+  have hr := late_readable_before c
+  refine ⟨lateCommitterStore c, 1, c + 2, [⟨1, 0, 64⟩], ⟨1, 0, 64⟩, hpl, Nat.le_refl _, by omega, by omega, htx,
+    List.mem_singleton.mpr rfl, hr, ?_, ?_, ?_⟩
+  · rw [late_trunc_eq]
+  · rw [late_trunc_eq]; exact late_unreadable_after c
+  · exact truncate_safe _ 1 (c + 2) _ _ (by omega) (by omega) (by omega) htx
+      (hpl _ (List.mem_of_getElem? htx)) (List.mem_singleton.mpr rfl) hr
+
+/-- The witness with `c = 4` (the configuration of the replica recipe: MaxConcurrency 4), computed. -/
+example :
+    ((truncateUptoWalkingTo (lateCommitterStore 4) 1 5).store.vlogs 1).present = [1, 2] ∧
+    ((truncateUpto (lateCommitterStore 4) 1).store.vlogs 1).present = [0, 1, 2] ∧
+    ¬ (truncateUptoWalkingTo (lateCommitterStore 4) 1 5).store.readable ⟨1, 0, 64⟩ ∧
+    (truncateUpto (lateCommitterStore 4) 1).store.readable ⟨1, 0, 64⟩ := by
   decide
 
 /-- **Repeating a truncation is harmless**: the second run removes nothing and answers the same. -/
